@@ -16,9 +16,14 @@ templates (transcribed from the Rust; names of the Rust items are given at each 
 * `perform_super` (move the depth cursor one up, render, move it back, wrap errors in `EvalBlock`);
 * template lookup with three outcomes: found, missing (`TemplateNotFound`), or a load error of
   its own kind (the template exists but does not compile / the loader returns an error);
-* `perform_include` (first existing name of a list; only *missing* names are skipped and
-  forgiven by `ignore missing`, a load error is returned as it is; blocks replaced and restored
-  = `BlockState::Replace`, errors wrapped in `BadInclude`);
+* `perform_include`: the candidates are read off the *value* of the include expression
+  (`choices`: a value that is not an object is one name; an object is iterated whatever its
+  `ObjectRepr` is — list, tuple, lazily evaluated iterable, one-shot iterator, map (its keys);
+  the shape of that expression and of the final `templates_tried` condition are regenerated
+  tables); first existing name of the candidates; a candidate that is not a string is an error
+  where it is reached; only *missing* names are skipped and forgiven by `ignore missing`, a load
+  error is returned as it is; blocks replaced and restored = `BlockState::Replace`, errors
+  wrapped in `BadInclude`;
 * `Stmt::Import` / `Stmt::FromImport` as compiled by `compiler/codegen.rs` (include into a fresh
   `with` frame, `ExportLocals` of exactly that frame);
 * the auto-escape mode (`state.auto_escape`): a template's initial mode is what the environment's
@@ -50,9 +55,17 @@ in a frame is written through to the frame's closure, a macro value carries the 
 captured and its body looks the free variable up there; `perform_include` detaches the frame's
 closure while the included file runs (`take_closure`) and attaches it again (`reset_closure`).
 
+A macro call (`inMacro`) runs its body on a fresh context with `current_block = None` but with
+the caller's block table and cursors (`BlockState::Isolate` only restores them afterwards): block
+references in macro bodies resolve like in the enclosing block body, `super()` there is an error.
+An included template gets a block table of its own (`BlockState::Replace`) but the includer's
+`current_block` *name*: `super()` outside of blocks in an included chain is resolved against that
+name in the included chain's own table.
+
 Not modelled: closures opened inside the bodies of macro *calls* (`inMacro` bodies run on a
-fresh context whose heap growth is dropped), `extends` inside loops/macros/blocks and an
-`autoescape` block directly inside another one (the model answers `unsupported` there).
+fresh context whose heap growth is dropped), `{% call %}` blocks, `extends` inside
+loops/macros/blocks and `autoescape` blocks nested more than `AE_NEST_MAX` deep directly in one
+another (the model answers `unsupported` there).
 -/
 namespace MJ.Blocks
 
@@ -144,18 +157,90 @@ def fmtStr (ae : AE) (s : String) : String :=
   | .html => escapeHtml s
   | .json => escapeJson s
 
+/-- one candidate of an include: `some t` = a string, the name of template `t`; `none` = a value
+    that is not a string (`choice.as_str()` fails: template name was not a string) -/
+abbrev Cand := Option Nat
+
+/-- `ObjectRepr` -/
+inductive ORepr
+  | plain | map | seq | iterable
+  deriving DecidableEq, Repr, Inhabited
+
+def ORepr.name : ORepr → String
+  | .plain => "Plain"
+  | .map => "Map"
+  | .seq => "Seq"
+  | .iterable => "Iterable"
+
+def ORepr.all : List ORepr := [.plain, .map, .seq, .iterable]
+
+/-- the value of the expression behind `include` / `import` / `from … import` as
+    `perform_include` sees it: either not an object (`name.as_object()` is `None`: a string or
+    another primitive — number, bool, none, undefined) or an object of some `ObjectRepr` together
+    with what `try_iter()` yields for it (the elements of a list / tuple / lazily evaluated
+    iterable / one-shot iterator, the *keys* of a map; `none` when the object cannot be iterated:
+    `Enumerator::NonEnumerable`, e.g. a function or a plain object) -/
+inductive Arg
+  | single (c : Cand)
+  | object (r : ORepr) (items : Option (List Cand))
+  deriving Repr, Inhabited
+
+/-- a string literal naming template `t` -/
+abbrev Arg.name (t : Nat) : Arg := .single (some t)
+/-- a list (literal, tuple, `Vec` from the context) of template names -/
+abbrev Arg.names (l : List Nat) : Arg := .object .seq (some (l.map some))
+
+/-- the value itself as a candidate (`name.clone()`): an object is never a string -/
+def Arg.self : Arg → Cand
+  | .single c => c
+  | .object _ _ => none
+
+/-- the `choices` of `perform_include`, following the shape of the Rust expression as the table
+    extractor read it off `vm/mod.rs` (`MJ.Gen.c06IncludeIteratedReprs`: the object kinds that
+    reach `try_iter()` — every filter in front of it removes kinds; `MJ.Gen.c06IncludeFallback`:
+    what happens when there is nothing to iterate).  An added or changed filter changes this
+    function, and `MJ.C06.include_candidates_any_iterable` no longer holds. -/
+def choices (a : Arg) : List Cand :=
+  let iter : Option (List Cand) :=
+    match a with
+    | .single _ => none
+    | .object r items => if MJ.Gen.c06IncludeIteratedReprs.contains r.name then items else none
+  match iter with
+  | some l => l
+  | none =>
+    if MJ.Gen.c06IncludeFallback == "single-name" then [a.self]
+    else if MJ.Gen.c06IncludeFallback == "single-name-unless-object" then
+      (match a with
+       | .single c => [c]
+       | .object _ _ => [])
+    else []
+
+/-- the atoms of the condition under which the tail of `perform_include` raises
+    `TemplateNotFound` (`tried` = `!templates_tried.is_empty()`) -/
+def notFoundAtom (tried ign : Bool) (atom : String) : Bool :=
+  if atom == "!templates_tried.is_empty()" then tried
+  else if atom == "templates_tried.is_empty()" then !tried
+  else if atom == "!ignore_missing" then !ign
+  else if atom == "ignore_missing" then ign
+  else false
+
+/-- `if !templates_tried.is_empty() && !ignore_missing { Err(TemplateNotFound) } else { Ok(()) }`
+    as extracted from the sources (a conjunction of atoms) -/
+def notFoundRaised (tried ign : Bool) : Bool :=
+  MJ.Gen.c06IncludeNotFoundCond.all (notFoundAtom tried ign)
+
 inductive Item
   | text (s : String)                                  -- `EmitRaw`
   | callBlock (n : Nat)                                -- `{% block n %}` ⇒ `CallBlock(n)`
   | super                                              -- `{{ super() }}` ⇒ `FastSuper`
   | extends (exec : Bool) (t : Nat)                    -- `LoadBlocks`, executed iff `exec` (`{% if %}` around it)
-  | incl (names : List Nat) (ignoreMissing : Bool)     -- `Include(ignore_missing)`
+  | incl (arg : Arg) (ignoreMissing : Bool)            -- `Include(ignore_missing)` on the value `arg`
   | emitVar (v : Nat)                                  -- `{{ v }}`
   | setVar (v : Nat) (s : String)                      -- `{% set v = "s" %}`
   | defMacro (v : Nat) (s : String)                    -- `{% macro v() %}s{% endmacro %}`
   | defMacroV (m w : Nat)                              -- `{% macro m() %}<mM:{{ w }}>{% endmacro %}` (free variable `w`)
-  | importAs (t : Nat) (v : Nat)                       -- `{% import t as v %}`
-  | fromImport (t : Nat) (name alias : Nat)            -- `{% from t import name as alias %}`
+  | importAs (arg : Arg) (v : Nat)                     -- `{% import arg as v %}`
+  | fromImport (arg : Arg) (name alias : Nat)          -- `{% from arg import name as alias %}`
   | emitAttr (v a : Nat)                               -- `{{ v.a }}`
   | emitKeys (v : Nat)                                 -- `{{ v|sort|join(",") }}`
   | callVar (v : Nat)                                  -- `{{ v() }}`
@@ -371,6 +456,22 @@ def isAutoesc : Item → Bool
   | .autoesc _ _ => true
   | _ => false
 
+mutual
+/-- how deep `{% autoescape %}` blocks are nested *directly* in one another (loops and macro
+    calls start anew: they run at a greater stack depth) -/
+def aeDepth : Item → Nat
+  | .autoesc _ body => aeDepthL body + 1
+  | _ => 0
+def aeDepthL : List Item → Nat
+  | [] => 0
+  | it :: rest => max (aeDepth it) (aeDepthL rest)
+end
+
+/-- the model follows `{% autoescape %}` blocks nested up to this deep directly in one another
+    (a modelling bound: such a block costs the engine no stack depth, so the model's fuel has to
+    pay for the static nesting; deeper nests are answered with `unsupported`) -/
+def AE_NEST_MAX : Nat := 8
+
 /-- the statements that only touch variables and output (shared by driver and spec): text,
     `{{ v }}`, `set`, macro definition, `{{ v.a }}`, `{{ v|sort|join }}`, `{{ v() }}`, and the
     empty body of a required block.  `quiet` = the output is discarding; `ae` = the current
@@ -488,13 +589,15 @@ def performSuper (rec : Rec) (cur : Option Nat) (disc : Bool) (outer : Nat) (ae 
             .ok (o, { st' with depth := setAt st'.depth n (st'.depth n - 1), frames := st'.frames.take fl })
     else .error [.invalidOperation]                -- no parent block exists
 
-/-- `perform_include`; `tried` = some name was looked up and not found.  The included template
-    runs in *its own* initial auto-escape mode (`tmpl.initial_auto_escape()`), whatever the
-    includer's current mode is; the includer's mode is back afterwards (reader value). -/
+/-- `perform_include` over the candidates `choices name`; `tried` = some name was looked up and
+    not found.  A candidate that is not a string is an error where it is reached.  The included
+    template runs in *its own* initial auto-escape mode (`tmpl.initial_auto_escape()`), whatever
+    the includer's current mode is; the includer's mode is back afterwards (reader value). -/
 def performInclude (env : Env) (rec : Rec) (cur : Option Nat) (disc ign : Bool) (outer : Nat) :
-    List Nat → Bool → St → Res
-  | [], tried, st => if tried && !ign then .error [.templateNotFound] else .ok ([], st)
-  | t :: rest, _, st =>
+    List Cand → Bool → St → Res
+  | [], tried, st => if notFoundRaised tried ign then .error [.templateNotFound] else .ok ([], st)
+  | none :: _, _, _ => .error [.invalidOperation]          -- template name was not a string
+  | some t :: rest, _, st =>
     match env[t]? with
     | none => performInclude env rec cur disc ign outer rest true st
     | some T =>
@@ -515,6 +618,41 @@ def performInclude (env : Env) (rec : Rec) (cur : Option Nat) (disc ign : Bool) 
         | .ok (o, st') =>
           .ok (o, { blocks := st.blocks, depth := st.depth, loaded := st.loaded,
                     frames := (st'.frames.take fl).setTopClosure st.frames.topClosure })
+
+/-- what `perform_include` does with a template it found: run it as a chain of its own (fresh
+    block table, empty loaded set) on the includer's frames with the frame's closure detached,
+    at `INCLUDE_RECURSION_COST` more depth, in the template's own auto-escape mode; wrap errors
+    in `BadInclude`; restore the includer's block state and closure -/
+def includeTemplate (rec : Rec) (cur : Option Nat) (disc : Bool) (outer : Nat) (T : Template) (st : St) : Res :=
+  if outer + INCLUDE_COST + st.frames.length > LIMIT then .error [.invalidOperation]
+  else
+    match rec cur disc false (outer + INCLUDE_COST) T.ae T.layout
+        { st with blocks := prepare T.blocks, depth := fun _ => 0, loaded := [],
+                  frames := st.frames.setTopClosure none } with
+    | .error e => .error (.badInclude :: e)
+    | .ok (o, st') =>
+      .ok (o, { blocks := st.blocks, depth := st.depth, loaded := st.loaded,
+                frames := (st'.frames.take st.frames.length).setTopClosure st.frames.topClosure })
+
+/-- the outcome of the candidate selection of an include -/
+inductive Selection
+  | render (t : Nat) (T : Template)      -- `t` is the first candidate that exists (and loads)
+  | loadError (t : Nat) (k : LoadErr)    -- the first candidate that exists cannot be loaded
+  | notAString                           -- a candidate that is not a string was reached first
+  | nothing (tried : Bool)               -- no candidate exists; `tried`: a name was looked up
+
+/-- the candidate-selection rule: walk the candidates in iteration order; a missing name is
+    skipped (and remembered), the first name that exists decides -/
+def select (env : Env) : List Cand → Bool → Selection
+  | [], tried => .nothing tried
+  | none :: _, _ => .notAString
+  | some t :: rest, _ =>
+    match env[t]? with
+    | none => select env rest true
+    | some T =>
+      match T.loadErr with
+      | some k => .loadError t k
+      | none => .render t T
 
 /-- `{% for v in vals %}body{% endfor %}`: PushLoop; per item: clear the loop frame's locals,
     StoreLocal(v), body; PopLoopFrame.  `run` evaluates the body. -/
@@ -562,23 +700,23 @@ def stepItems (rd : Rd) (rec : Rec) :
         match loadBlocks rd.env t st with
         | .error e => .error e
         | .ok (st', layout) => stepItems rd rec (some layout) rest st'
-    | .incl names ign => continue_ (performInclude rd.env rec rd.cur disc ign rd.outer names false st)
-    | .importAs t v =>
+    | .incl a ign => continue_ (performInclude rd.env rec rd.cur disc ign rd.outer (choices a) false st)
+    | .importAs a v =>
       -- BeginCapture(Capture); PushWith; Include(false); EndCapture; ExportLocals; PopFrame; store
       if pushFails rd.outer st.frames then .error [.invalidOperation]
       else
         let fl := st.frames.length
-        match performInclude rd.env rec rd.cur false false rd.outer [t] false { st with frames := st.frames.push [[]] } with
+        match performInclude rd.env rec rd.cur false false rd.outer (choices a) false { st with frames := st.frames.push [[]] } with
         | .error e => .error e
         | .ok (_, st') =>
           let m := Val.module (dedupKeys (topFrame st'.frames))
           continue_ (.ok ([], { st' with frames := store (st'.frames.take fl) v m }))
-    | .fromImport t name alias =>
+    | .fromImport a name alias =>
       -- BeginCapture(Discard); PushWith; Include(false); ExportLocals; PopFrame; GetAttr; store
       if pushFails rd.outer st.frames then .error [.invalidOperation]
       else
         let fl := st.frames.length
-        match performInclude rd.env rec rd.cur true false rd.outer [t] false { st with frames := st.frames.push [[]] } with
+        match performInclude rd.env rec rd.cur true false rd.outer (choices a) false { st with frames := st.frames.push [[]] } with
         | .error e => .error e
         | .ok (_, st') =>
           let x := (lookupVal name (topFrame st'.frames)).getD .undef
@@ -606,9 +744,9 @@ def stepItems (rd : Rd) (rec : Rec) :
           | .ok (o, _) => continue_ (.ok (if disc then [] else o, st1))
     | .badTarget => .error [.invalidOperation]     -- template name was not a string
     | .autoesc m body =>
-      -- PushAutoEscape … PopAutoEscape inside the same activation (no frame, no depth); an
-      -- `autoescape` block directly inside another one is outside the modelled fragment
-      if body.any isExtends || body.any isAutoesc then .error [.unsupported]
+      -- PushAutoEscape … PopAutoEscape inside the same activation (no frame, no depth); blocks
+      -- nested directly in one another are followed up to `AE_NEST_MAX` deep
+      if body.any isExtends || decide (AE_NEST_MAX ≤ aeDepthL body) then .error [.unsupported]
       else continue_ (rec rd.cur disc ext rd.outer m body st)
     | it =>
       match varItem rd.cfg disc rd.ae it st.frames with
